@@ -255,9 +255,11 @@ impl Mul<usize> for ZatBalance {
     type Output = Option<ZatBalance>;
 
     fn mul(self, rhs: usize) -> Option<ZatBalance> {
-        let rhs: i64 = rhs.try_into().ok()?;
-        self.0
-            .checked_mul(rhs)
+        // Multiply in `i128` so that a multiplier above `i64::MAX` is only rejected when the
+        // exact product is out of range (a zero balance times any multiplier is zero).
+        i128::from(self.0)
+            .checked_mul(i128::try_from(rhs).ok()?)
+            .and_then(|i| i64::try_from(i).ok())
             .and_then(|i| ZatBalance::try_from(i).ok())
     }
 }
